@@ -88,7 +88,7 @@ func c07IPoESequence(n []uint64, f []string) string {
 			mac = d4.ClientHWAddr
 		}
 		pkt := &dataplane.ParsedPacket{Protocol: models.ProtocolDHCPv4, MAC: mac, OuterVLAN: 100, SwIfIndex: 10, DHCPv4: d4, RawPacket: raw}
-		if !c07Returns(1500*time.Millisecond, func() { _ = c.processDHCPPacket(pkt) }) {
+		if !c07Returns(3*time.Second, func() { _ = c.processDHCPPacket(pkt) }) {
 			c07Hangs++
 			return "hang"
 		}
@@ -129,7 +129,7 @@ func c07IPoE(entry string, n []uint64, f []string) string {
 					out = "4"
 				}
 			} else {
-				if !c07Returns(1500*time.Millisecond, func() { c.forwardToL2GW(&dataplane.ParsedPacket{OuterVLAN: 100}) }) {
+				if !c07Returns(3*time.Second, func() { c.forwardToL2GW(&dataplane.ParsedPacket{OuterVLAN: 100}) }) {
 					c07Hangs++
 					toks = append(toks, c07U(uint64(len(ch))), "3")
 					break
@@ -152,7 +152,7 @@ func c07IPoE(entry string, n []uint64, f []string) string {
 		c.l2gwChan = ch
 		returned := 0
 		for i := 0; i < N; i++ {
-			if !c07Returns(1500*time.Millisecond, func() { c.forwardToL2GW(&dataplane.ParsedPacket{OuterVLAN: 100}) }) {
+			if !c07Returns(3*time.Second, func() { c.forwardToL2GW(&dataplane.ParsedPacket{OuterVLAN: 100}) }) {
 				c07Hangs++
 				break
 			}
@@ -160,7 +160,7 @@ func c07IPoE(entry string, n []uint64, f []string) string {
 		}
 		accepted := len(ch)
 		// the handler still works for a packet of the next subscriber, and the queue drains
-		alive := c07Returns(1500*time.Millisecond, func() { c.forwardToL2GW(&dataplane.ParsedPacket{OuterVLAN: 101}) })
+		alive := c07Returns(3*time.Second, func() { c.forwardToL2GW(&dataplane.ParsedPacket{OuterVLAN: 101}) })
 		for len(ch) > 0 {
 			<-ch
 		}
